@@ -238,6 +238,24 @@ def r_opsem(ctx, only=None):
                     if type(e).__name__ in ("_Unknown", "AnalysisError"):
                         raise AnalysisError("%s: operator body outside the analysed fragment: %s" % (key, e))
                     raise
+                if want is None and outcome[0] == "raise":
+                    # the rejection must not depend on what the receiver happens to contain: try again with a receiver of another shape
+                    # (no constant term / other leaves), for which no arithmetic on the coefficients is attempted
+                    alt = {"Point": AObj("Point", {"Z": S("z1")}), "Expression": AObj("Expression", {"Z": S("z1")}),
+                           "Function": AObj("Function", {"fz": S("z1")}, frozenset({"rs"}))}[cname]
+                    it2 = OpInterp(repo, cls.module)
+                    try:
+                        got2 = it2.invoke(alt, op, [] if unary else [arg])
+                        outcome = ("value", got2)
+                    except Raised:
+                        pass
+                    except LeafCreated as e:
+                        ctx.ob("R-OPSEM", key, False, str(e), loc(fn, fn))
+                        continue
+                    except Exception as e:
+                        if type(e).__name__ in ("_Unknown", "AnalysisError"):
+                            raise AnalysisError("%s: operator body outside the analysed fragment: %s" % (key, e))
+                        raise
                 if want is None:
                     ok = outcome[0] == "raise"
                     msg = "an operand of kind %s is rejected (%s)" % (kind, outcome[1]) if ok else \
